@@ -749,3 +749,14 @@ add('C08.content_of_tracked_only', 'C08', [(CAL, "          tfl_interpreter_util
 
 add('C01.replacement_shift_late', 'C01', (TP, "        self._first_original_op_at_or_after(\n            transformation_inst.subgraph_id, trans_info.op_id\n        ),", "        self._first_original_op_at_or_after(\n            transformation_inst.subgraph_id,\n            trans_info.op_id + (1 if instruction.transformation in self._op_replacement_transformations else 0),\n        ),"),
     'C01.R14', 'after an op replacement the id map is shifted from one position later: the replaced operator maps to the first op of its pattern (seeded b8-C01)')
+TU = 'transformations/transformation_utils.py'
+add('C14.global_name_counter', 'C14', [(TU, "import dataclasses\n", "import dataclasses\nimport itertools\n_SUFFIXES = itertools.count(1)\n"),
+    (TU, "  new_tensor.name = tensor_name\n  new_tensor.buffer = 0\n", "  new_tensor.name = tensor_name if all(t.name != tensor_name for t in subgraph.tensors) else tensor_name + (b'_%d' % next(_SUFFIXES))\n  new_tensor.buffer = 0\n")],
+    'C14.R3', 'a module-level counter is advanced while naming new tensors: the bytes depend on earlier quantize() calls (seeded b9-C14)')
+add('C19.delete_op_code', 'C19', (TU, "  model_op_codes.append(schema_py_generated.OperatorCodeT())\n  model_op_codes[-1].builtinCode = op_code\n  return len(model_op_codes) - 1", "  while model_op_codes and model_op_codes[-1].builtinCode is None:\n    del model_op_codes[-1]\n  model_op_codes.append(schema_py_generated.OperatorCodeT())\n  model_op_codes[-1].builtinCode = op_code\n  return len(model_op_codes) - 1"),
+    'C19.R12', 'entries are deleted from the model-wide operator-code table (seeded b9-C19)')
+add('C10.scope_from_inputs_when_no_output', 'C10', (PG, "    scope = ''\n    # Op scope is determined by output tensors.\n    for output_tensor_idx in op.outputs:", "    scope = ''\n    # Op scope is determined by output tensors.\n    for output_tensor_idx in (op.outputs if len(op.outputs) else op.inputs):"),
+    ('C10.R1', 'C10.R7'), 'an operator without outputs (the virtual OUTPUT operator) is scoped by its inputs in one phase (seeded b9-C02)')
+add('C02.scope_from_inputs_when_no_output', 'C02', [(PG, "    scope = ''\n    # Op scope is determined by output tensors.\n    for output_tensor_idx in op.outputs:", "    scope = ''\n    # Op scope is determined by output tensors.\n    for output_tensor_idx in (op.outputs if len(op.outputs) else op.inputs):"),
+    (CAL, "    scope = \"\"\n    for output_tensor_idx in op.outputs:", "    scope = \"\"\n    for output_tensor_idx in (op.outputs if len(op.outputs) else op.inputs):")],
+    'C02.R9', 'the virtual OUTPUT operator is scoped by the graph output names: a regex naming an output tensor quantizes the model output (seeded b9-C02)')
